@@ -297,6 +297,108 @@ def run_case(case):
     return {"nontrivial": nt, "classes": sorted(classes)}
 
 
+def run_app_limited(case):
+    """Application-limited flows (data arrives in MSS chunks at generated intervals, so the sender also sleeps waiting for
+    data). Model-free clauses only: every new-data emission is MSS-sized, consecutively numbered and inside
+    min(send_buffer, last_ack + cwnd) as public at that very moment; cwnd >= MSS; nothing raises."""
+    lab = Lab(clause="C17.no_exception")
+    env = lab.env
+    out = lab.tap("out")
+    cc = TCPCubic() if case["cc"] == "cubic" else TCPReno(cwnd=case["cwnd0"], ssthresh=case["ssthresh0"])
+    gaps = list(case["gaps"])
+    st_ = {"i": 0}
+
+    def arrival():
+        st_["i"] += 1
+        return gaps[(st_["i"] - 1) % len(gaps)]
+    flow = Flow(flow_id=3, src="s", dst="d", finish_time=inf, size=case["nseg"] * MSS, arrival_dist=arrival)
+    snd = TCPPacketGenerator(env, flow, cc, element_id="tcp", rtt_estimate=case["rtt0"])
+    snd.out = out
+    highest = {"v": -MSS}
+    stats = {"new": 0, "shrunk_while_waiting": 0, "cwnd_at_last_new": None}
+
+    def tap_hook(rec):
+        pid, size = rec.snap[0], rec.snap[3]
+        if pid > highest["v"]:
+            if size != MSS or pid != highest["v"] + MSS:
+                lab.flag("C17.segments", f"new data segment id {pid} size {size} after {highest['v']}", "C17.segments")
+            lim = min(snd.send_buffer, snd.last_ack + snd.congestion_control.cwnd)
+            if pid + MSS > lim + 1e-9:
+                lab.flag("C17.window", f"segment {pid} sent at t={rec.now} although {pid}+MSS > min(buffered {snd.send_buffer}, last_ack "
+                                       f"{snd.last_ack} + cwnd {snd.congestion_control.cwnd}) = {lim}", "C17.window/app-limited")
+            highest["v"] = pid
+            stats["new"] += 1
+            c0 = stats["cwnd_at_last_new"]
+            if c0 is not None and snd.congestion_control.cwnd < c0:
+                stats["shrunk_while_waiting"] += 1
+            stats["cwnd_at_last_new"] = snd.congestion_control.cwnd
+    out.on_put = tap_hook
+
+    def settle():
+        n = 0
+        while env.peek() == env.now:
+            n += 1
+            if n > 100000:
+                raise Inconclusive("drain budget")
+            try:
+                env.step()
+            except Exception as e:
+                lab.check()
+                raise crash("C17.no_exception", e, f"at t={env.now}")
+            lab.check()
+        if snd.congestion_control.cwnd < MSS - 1e-9:
+            raise Violation("C17.cwnd_floor", f"cwnd={snd.congestion_control.cwnd} < MSS", "C17.cwnd_floor")
+    settle()
+    for i, op in enumerate(case["ops"]):
+        if op[0] == "adv":
+            lab.run(until=env.now + op[1])
+            settle()
+            continue
+        sent = sorted(snd.sent_packets)
+        if op[0] == "new":
+            if snd.last_ack >= snd.next_seq:
+                continue
+            k = min(op[1], (snd.next_seq - snd.last_ack) // MSS)
+            ackno = snd.last_ack + k * MSS
+            pid = ackno - MSS
+            t_tx = snd.sent_packets[pid].time if pid in snd.sent_packets else env.now
+        else:
+            ackno = snd.last_ack
+            pid = sent[op[1] % len(sent)] if sent else 0
+            t_tx = env.now
+        ack = Packet(t_tx, size=40, packet_id=pid, flow_id=3 + 10000)
+        ack.ack = ackno
+        try:
+            snd.put(ack)
+        except Exception as e:
+            raise crash("C17.no_exception", e, f"in put(ack={ackno}) op {i}")
+        settle()
+    classes = {case["cc"]}
+    if stats["shrunk_while_waiting"]:
+        classes.add("window shrank between two new-data emissions")
+    if stats["new"] >= 4:
+        classes.add(">=4 new segments")
+    return {"nontrivial": stats["shrunk_while_waiting"] > 0 and stats["new"] >= 4, "classes": sorted(classes)}
+
+
+def app_strategy(tier):
+    big = tier == "thorough"
+    new = st.tuples(st.just("new"), st.integers(1, 3)).map(list)
+    dup = st.tuples(st.just("dup"), st.integers(0, 5)).map(list)
+    adv = st.tuples(st.just("adv"), st.sampled_from([0.1, 0.25, 0.5, 1, 2, 4])).map(list)
+    dups = st.lists(dup, min_size=3, max_size=5)
+    chunk = kgen.weighted([(st.lists(adv, min_size=1, max_size=2), 5), (st.lists(new, min_size=1, max_size=2), 3), (dups, 2)])
+    ops = st.lists(chunk, min_size=5, max_size=30 if big else 18).map(lambda cs: [o for c in cs for o in c])
+    return st.fixed_dictionaries({
+        "cc": st.sampled_from(["reno", "reno", "cubic"]),
+        "cwnd0": st.sampled_from([1024, 2048, 4096, 1536]),
+        "ssthresh0": st.sampled_from([1024, 4096, 65535]),
+        "rtt0": st.sampled_from([1.0, 0.5, 0.75]),
+        "nseg": st.sampled_from([12, 40]),
+        "gaps": st.lists(st.sampled_from([0, 0.25, 0.5, 1, 1, 2]), min_size=1, max_size=5),
+        "ops": ops})
+
+
 def strategy_for(cc):
     def strat(tier):
         big = tier == "thorough"
@@ -331,13 +433,18 @@ PROP = Property(
           "gains 1/8, 1/4; cwnd>=MSS. At the tap: new data MSS-sized, consecutive multiples of MSS, and id+MSS <= "
           "min(send_buffer, last_ack+cwnd) at the moment of emission; every transmission is one the rules predict (a "
           "retransmission on the 4th+ duplicate is tolerated, not required). CUBIC congestion avoidance is compared with a "
-          "transcription of the window-growth code (implementation-derived). Non-trivial = the history crosses ssthresh, has a "
+          "transcription of the window-growth code (implementation-derived). Facet app_limited: flows whose data arrives in MSS "
+          "chunks at generated intervals (the sender also sleeps waiting for data) under the same kinds of ACK/dup-ACK/advance "
+          "histories, judged model-free: every new-data emission is MSS-sized, consecutive and inside min(send_buffer, "
+          "last_ack+cwnd) as public at that moment; cwnd >= MSS; nothing raises. Non-trivial = the history crosses ssthresh, has a "
           "run of >=4 dup ACKs followed by a new ACK, and a timer expiry."),
     facets=[Facet("reno", strategy_for("reno"), run_case, quick=1000, thorough=7000,
                   essential=["slow start", "congestion avoidance", "fast retransmit", "window inflation",
                              "deflate after fast recovery", "retransmission timeout", "new ACK after 1-2 duplicates"]),
             Facet("cubic", strategy_for("cubic"), run_case, quick=500, thorough=3000,
-                  essential=["slow start", "fast retransmit", "retransmission timeout", "congestion avoidance"])],
+                  essential=["slow start", "fast retransmit", "retransmission timeout", "congestion avoidance"]),
+            Facet("app_limited", app_strategy, run_app_limited, quick=800, thorough=5000,
+                  essential=["window shrank between two new-data emissions", ">=4 new segments"])],
     assumptions=["ACKs are delivered by direct put() calls at the current instant; expiries at exactly the target of an advance "
                  "are processed before the next ACK", "CUBIC growth formula is implementation-derived"],
 )
